@@ -1122,7 +1122,11 @@ class AddPaths:
             c = strip(kids(c)[0])
         if c["k"] == "BinaryOperator" and ((c.get("op") == "&&" and pol) or (c.get("op") == "||" and not pol)):
             return self.atoms(kids(c)[0], pol) + self.atoms(kids(c)[1], pol)
-        return [(nt(render(c)), pol)]
+        t = nt(render(c))
+        AddPaths.reg[t] = (self.f, c)
+        return [(t, pol)]
+
+    reg = {}          # atom text -> (function, node)
 
     def expr_adds(self, e):
         for x in walk(e):
@@ -1215,9 +1219,28 @@ P2_EXCEPTIONS = [
 P2_EXCEPTIONS += [
     (r"BasicFuncConstrCvt<.*>::Convert<", lambda c: any("HasNegative()" in t and not p for t, p in c) and any("HasPositive()" in t and not p for t, p in c),
      "neither direction needed: the context lacks it or the bound of the result already implies it (C01.D1 checks the guards)"),
-    (r"RangeConstraintConverter<.*>::ConvertWithRhs", lambda c: _has(c, ("rr[1]&&!rr[2]", False), ("!rr[1]&&rr[2]", False), ("rr[1]&&rr[2]", False)),
+    (r"RangeConstraintConverter<.*>::ConvertWithRhs", lambda c: _entails(c, {"rr[1]": False, "rr[2]": False}),
      "both bounds infinite: the range constraint is free"),
 ]
+
+
+def _entails(conds, want):
+    """the path conditions, read as a boolean function of their atoms, hold only where the atoms in `want` have the given values"""
+    import itertools
+    fms = []
+    for t, p in conds:
+        if t not in AddPaths.reg:
+            return False
+        x = bool_formula(AddPaths.reg[t][0], AddPaths.reg[t][1])
+        fms.append(x if p else ("not", x))
+    atoms = sorted(set().union(*[bf_atoms(x) for x in fms])) if fms else []
+    if len(atoms) > 12 or not all(a in atoms for a in want):
+        return False
+    for bits in itertools.product((False, True), repeat=len(atoms)):
+        a = dict(zip(atoms, bits))
+        if all(bf_eval(x, a) for x in fms) and any(a[k] is not v for k, v in want.items()):
+            return False
+    return True
 
 
 def rule_P2(rep, funcs):
@@ -1659,6 +1682,72 @@ L1_FUNCS = [
 ]
 
 
+def bool_formula(f, n, clean=lambda t: t, depth=0):
+    """boolean structure of a condition: ("not", x) / ("and", x, y) / ("or", x, y) / ("atom", text); bool locals with a stable
+    initialiser are looked through; `>` and `>=` atoms are written as `<` and `<=` (operands swapped, exact also for NaN)"""
+    from ..cfg import _stable_local_inits
+    n = strip(n)
+    if n["k"] == "UnaryOperator" and n.get("op") == "!":
+        return ("not", bool_formula(f, kids(n)[0], clean, depth))
+    if n["k"] == "BinaryOperator" and n.get("op") in ("&&", "||"):
+        return ("and" if n["op"] == "&&" else "or", bool_formula(f, kids(n)[0], clean, depth), bool_formula(f, kids(n)[1], clean, depth))
+    if n["k"] == "DeclRefExpr" and n.get("dk") == "Var" and depth < 6 and "bool" in (n.get("ct") or n.get("t") or "bool"):
+        ini = _stable_local_inits(f, True).get(n.get("declId"))
+        if ini is not None and strip(ini)["k"] != "InitListExpr":
+            return bool_formula(f, ini, clean, depth + 1)
+    if n["k"] == "BinaryOperator" and n.get("op") in (">", ">="):
+        a, b = kids(n)
+        return ("atom", "%s%s%s" % (clean(nt(render(b))), "<" if n["op"] == ">" else "<=", clean(nt(render(a)))))
+    if n["k"] == "BinaryOperator" and n.get("op") in ("==", "!="):
+        a, b = sorted([clean(nt(render(kids(n)[0]))), clean(nt(render(kids(n)[1])))])
+        x = ("atom", "%s==%s" % (a, b))
+        return x if n["op"] == "==" else ("not", x)
+    return ("atom", clean(nt(render(n))))
+
+
+def bf_atoms(fm, acc=None):
+    acc = set() if acc is None else acc
+    if fm[0] == "atom":
+        acc.add(fm[1])
+    else:
+        for x in fm[1:]:
+            bf_atoms(x, acc)
+    return acc
+
+
+def bf_eval(fm, a):
+    if fm[0] == "atom":
+        return a[fm[1]]
+    if fm[0] == "not":
+        return not bf_eval(fm[1], a)
+    if fm[0] == "and":
+        return bf_eval(fm[1], a) and bf_eval(fm[2], a)
+    return bf_eval(fm[1], a) or bf_eval(fm[2], a)
+
+
+def bf_canon(fms):
+    """canonical text of a disjunction of formulas: the minterms over the atoms it really depends on"""
+    import itertools
+    atoms = sorted(set().union(*[bf_atoms(x) for x in fms])) if fms else []
+    if len(atoms) > 12:
+        raise AnalysisBroken("C01: path condition over %d atoms" % len(atoms))
+    sat = set()
+    for bits in itertools.product((False, True), repeat=len(atoms)):
+        a = dict(zip(atoms, bits))
+        if any(bf_eval(x, a) for x in fms):
+            sat.add(bits)
+    keep = []
+    for i in range(len(atoms)):
+        if any((b[:i] + (not b[i],) + b[i + 1:]) not in sat for b in sat):
+            keep.append(i)
+    rows = sorted({tuple(b[i] for i in keep) for b in sat})
+    if not sat:
+        return "never"
+    if not keep:
+        return ""
+    return " | ".join(" & ".join(("" if v else "!") + "(" + atoms[i] + ")" for i, v in zip(keep, r)) for r in rows)
+
+
 def l1_forms(funcs):
     from ..conlit import Interp, Unsupported
     byfull = {}
@@ -1681,9 +1770,28 @@ def l1_forms(funcs):
             except Unsupported as u:
                 out[key] = (f, None, str(u))
                 continue
-            forms = []
+            # the same descriptor reached on several paths counts once, under the disjunction of the path conditions; the
+            # conditions are compared as boolean functions of their atoms, not as written
+            clean_ = lambda t: t.replace("this->", "").replace("GetMC().", "")
+            grp = {}
             for conds, each, dsc in em:
-                forms.append("%s%s %s" % ("EACH " if each else "", "[" + " & ".join(("" if p else "!") + "(" + t + ")" for t, p in conds) + "]" if conds else "[]", canon_form(dsc)))
+                fm = ("atom", "true")
+                parts = []
+                for t, p in conds:
+                    cf_, cn_ = Interp.cond_reg[t]
+                    x = bool_formula(cf_, cn_, clean_)
+                    parts.append(x if p else ("not", x))
+                grp.setdefault(("EACH " if each else "", canon_form(dsc)), []).append(parts)
+            forms = []
+            for (ea, ds), alts in grp.items():
+                fms = []
+                for parts in alts:
+                    fm = None
+                    for x in parts:
+                        fm = x if fm is None else ("and", fm, x)
+                    fms.append(fm)
+                ct = "" if any(x is None for x in fms) else bf_canon(fms)
+                forms.append("%s[%s] %s" % (ea, ct, ds))
             out[key] = (f, sorted(forms), None)
     rel = [g for g in funcs if g.qn == "mp::RangeConstraintConverter::Relate"]
     for g in rel[:1]:
